@@ -33,9 +33,6 @@ Definition spec_c09 (i : intent09) (ds : list diag) : bool :=
     | _ => false
     end.
 
-Definition diags_of_file (p : str) (ds : list (str * diag)) : list diag :=
-  map snd (filter (fun pd => str_eqb (fst pd) p) ds).
-
 (* verdict of one generated case *)
 Definition check_c09 (t : tables) (fs : list fcase) (o : obs) (intents : list (str * intent09)) : N :=
   let m := model_scan_run t fs [] [] in
